@@ -6,6 +6,9 @@ package main
 // Built with -race the same driver exposes unsynchronized accesses in the pipelines.
 
 import (
+	"sort"
+	"github.com/itchio/savior/seeksource"
+	"github.com/itchio/wharf/pwr/rediff"
 	"testing/iotest"
 	"bytes"
 	"context"
@@ -36,6 +39,7 @@ type c15Line struct {
 	OptParams string   `json:"optparams"`
 	OptShas   []string `json:"optshas"`
 	OptErrs   []string `json:"opterrs"`
+	AnaMaps   []string `json:"anamaps"` // distinct mappings seen over 96 analyses of the same patch
 	OptMaps   []string `json:"optmaps"` // chosen bsdiff targets per run
 }
 
@@ -91,6 +95,15 @@ func tiePair(rng *rand.Rand) (old, new *tree, desc string) {
 	new.Files["tie/a.bin"] = a
 	mix2 := append(append(append([]byte{}, c[:BS]...), randBytes(rng, 10)...), b[2*BS:3*BS]...)
 	new.Files["tie/second-mix.bin"] = mix2
+	// ties that involve the SAME-PATH old file: against an old file with a lower container index (tie/b.bin sorts
+	// before tie/k.bin), against one with a higher index (tie/z.bin), and against both
+	kk, m, t, z := randBytes(rng, 4*BS), randBytes(rng, 4*BS), randBytes(rng, 4*BS), randBytes(rng, 4*BS)
+	old.Files["tie/k.bin"], old.Files["tie/m.bin"], old.Files["tie/t.bin"], old.Files["tie/z.bin"] = kk, m, t, z
+	new.Files["tie/k.bin"] = append(append(append([]byte{}, b[:2*BS]...), randBytes(rng, 1000)...), kk[:2*BS]...)
+	new.Files["tie/m.bin"] = append(append(append([]byte{}, m[:2*BS]...), randBytes(rng, 500)...), z[:2*BS]...)
+	three := append(append(append([]byte{}, c[:BS]...), randBytes(rng, 100)...), t[:BS]...)
+	three = append(append(three, randBytes(rng, 100)...), z[2*BS:3*BS]...)
+	new.Files["tie/t.bin"] = three
 	return old, new, "tie-between-old-files"
 }
 
@@ -173,6 +186,29 @@ func cmdC15(args []string) error {
 			}
 			line.OptMaps = append(line.OptMaps, ms)
 		}
+		// the optimizer's ANALYSIS alone (which old file each new file is bsdiffed against) is cheap: many more
+		// repetitions, so that a choice that depends on map iteration order shows
+		seen := map[string]bool{}
+		for r := 0; r < 96; r++ {
+			rc, err := rediff.NewContext(rediff.Params{Consumer: nullConsumer(), PatchReader: seeksource.FromBytes(firstPatch), Partitions: op.Partitions})
+			if err != nil {
+				seen["error: "+err.Error()] = true
+				continue
+			}
+			maps := rc.GetDiffMappings()
+			ms := ""
+			for si := int64(0); si < int64(len(sourceContainer.Files)); si++ {
+				if m, ok := maps[si]; ok {
+					ms += fmt.Sprintf("%d<-%d ", si, m.TargetIndex)
+				}
+			}
+			seen[ms] = true
+		}
+		line.AnaMaps = []string{}
+		for ms := range seen {
+			line.AnaMaps = append(line.AnaMaps, ms)
+		}
+		sort.Strings(line.AnaMaps)
 		w.emit(line)
 		w.flush()
 		os.RemoveAll(root)
